@@ -88,7 +88,7 @@ def gen_specs(tier, seed):
     # unused variable is not part of the serialised program: outside the claim)
     s5 = [s for s in c05.gen_specs("quick", seed) if s[0] == "scalar" or (len(set(s[2])) == 1 and s[3] in ("none", "exact") and (not s[4] or s[5] == "arg"))]
     specs += [("c05", s) for s in s5[::(3 if tier == "quick" else 1)]]
-    s6 = [s for s in c06.gen_specs("quick", seed) if s[5] != "use"]
+    s6 = [s for s in c06.gen_specs("quick", seed) if s[5] != "use" and s[3] != "func"]
     specs += [("c06", s) for s in s6[::(6 if tier == "quick" else 1)]]
     return specs
 
